@@ -30,6 +30,10 @@ type Dim struct {
 	Alts []Alt
 }
 
+// NoUnknownEnum leaves the undeclared enum number 99 and non-finite floats out of the value domains
+// (drivers whose oracle is a published schema set it: such values have no schema-describable JSON form).
+var SchemaDescribableOnly bool
+
 type ValueOpts struct {
 	Thorough bool
 	PathSafe map[string]bool // field names bound to path variables: only non-empty values
@@ -84,7 +88,9 @@ func plainScalarValues(fd protoreflect.FieldDescriptor, thorough bool) []protore
 				out = append(out, protoreflect.ValueOfEnum(n))
 			}
 		}
-		out = append(out, protoreflect.ValueOfEnum(99))
+		if !SchemaDescribableOnly {
+			out = append(out, protoreflect.ValueOfEnum(99))
+		}
 		return out
 	}
 	return nil
